@@ -1107,12 +1107,14 @@ where
 
     /// Returns a guard for the pointer to the underlying memory.
     pub fn ptr_guard(&self) -> PtrGuard {
-        PtrGuard::read(self.mmap, self.addr, self.len())
+        // The guard covers the array in bytes, not in elements.
+        PtrGuard::read(self.mmap, self.addr, self.len() * self.element_size())
     }
 
     /// Returns a mutable guard for the pointer to the underlying memory.
     pub fn ptr_guard_mut(&self) -> PtrGuardMut {
-        PtrGuardMut::write(self.mmap, self.addr, self.len())
+        // The guard covers the array in bytes, not in elements.
+        PtrGuardMut::write(self.mmap, self.addr, self.len() * self.element_size())
     }
 
     /// Borrows the inner `BitmapSlice`.
